@@ -21,7 +21,7 @@ import numpy as np
 import sympy as sp
 
 from ..core import norm, calls_in, kwarg, AnalysisError, walk_no_nested, is_setter
-from ..symx import SymEval, Path, SymObj, symarray, is_zero, equal, Opaque, WouldRaise, module_aliases, arr
+from ..symx import is_arr, SymEval, Path, SymObj, symarray, is_zero, equal, Opaque, WouldRaise, module_aliases, arr
 from .. import effects
 
 BOX = 'atomman/core/Box.py'
@@ -342,6 +342,20 @@ def scale_free_cleanup(ctx, rule):
         ok = len(live) == 1 and obj.attrs.get('_Box__reciprocal_vects') is None and got is not None and all(is_zero(sp.nsimplify(x_) - y_) for x_, y_ in zip(np.ravel(got), np.ravel(np.array(newM, dtype=object))))
         n += 1
         ctx.ob(rule, loc, '%s: the new vectors are stored and the reciprocal-vector cache is reset' % tag, bool(ok), 'cache after setting: %r' % (obj.attrs.get('_Box__reciprocal_vects'),), node=st, key='setter reset ' + tag[:30])
+    # the setters keep values, not the caller's arrays: a caller who goes on using the array it passed (origin += shift) must not move the box
+    for pname, attr, val in (('vects', '_Box__vects', np.array(base, dtype=object)), ('origin', '_Box__origin', np.array([R(3, 2), R(-9, 4), R(3, 4)], dtype=object))):
+        sfn = ctx.fn(BOX, 'Box.' + pname, setter=True)
+        obj = SymObj(cls, {'_Box__vects': arr(sp.eye(3).tolist()), '_Box__origin': arr([0, 0, 0]), '_Box__reciprocal_vects': None}, 'self')
+        ev = SymEval(module_aliases(ctx.mod(BOX)))
+        given = val.copy()
+        try:
+            live = [q for q in ev.run_fn(sfn, [obj, given], {}) if q.done == 'return']
+        except (Opaque, WouldRaise) as e:
+            raise AnalysisError('Box.%s setter: %s' % (pname, e))
+        got = obj.attrs.get(attr)
+        ok = len(live) == 1 and is_arr(got) and got is not given and not np.shares_memory(got, given) and equal(np.asarray(got, dtype=object), val, deep=False)
+        n += 1
+        ctx.ob(rule, BOX + '::Box.%s.setter' % pname, 'the %s setter stores the values, not the array it was given (no memory shared with the caller\'s array)' % pname, bool(ok), node=sfn, key='setter owns ' + pname)
     return n
 
 
